@@ -366,6 +366,12 @@ fn mentions_ref(v: &Value) -> bool {
 
 /// Single-edit mutants of an instance (DESIGN §4.3(c)); each with a tag.
 pub fn mutants(g: &mut G, v: &Value, limit: usize) -> Vec<(String, Value)> {
+    mutants_opt(g, v, limit, true)
+}
+
+/// `nulls`: also replace scalars by null (a documented looseness for optional
+/// members: they are `Option<T>` and accept null)
+pub fn mutants_opt(g: &mut G, v: &Value, limit: usize, nulls: bool) -> Vec<(String, Value)> {
     let mut out: Vec<(String, Value)> = vec![];
     let mut paths: Vec<Vec<PathSeg>> = vec![];
     collect_paths(v, &mut vec![], &mut paths);
@@ -415,7 +421,9 @@ pub fn mutants(g: &mut G, v: &Value, limit: usize) -> Vec<(String, Value)> {
                 }
                 edits.push(("string-nonmember".into(), Some(json!("zz-not-a-member"))));
                 edits.push(("swap-type".into(), Some(json!(7))));
-                edits.push(("swap-null".into(), Some(Value::Null)));
+                if nulls {
+                    edits.push(("swap-null".into(), Some(Value::Null)));
+                }
             }
             Value::Number(n) => {
                 edits.push(("swap-type".into(), Some(json!(n.to_string()))));
